@@ -158,9 +158,9 @@ FOR_PROPERTY = {
   "C13": (["cond2", "cond3s", "cond2u"], ["cond3", "x3cond"]),
   "C14": (["rec2q", "rec2pq", "rec2w", "rec2v", "rec3x"], ["rec2", "rec2p", "rec2b"]),
   "C05": (["mutex2", "x3res"], ["mutex2p", "mutex3", "lost2"]),
-  "C06": (["order3", "cond4o"], ["order3e", "pool3", "x3res"]),
-  "C07": (["pool2", "pool3p"], ["pool3", "x3pool"]),
-  "C08": (["lost2", "lost3x"], ["lost3", "pool2", "mutex2p", "x3pool", "x3buf", "x3oq", "x3pq", "x3res"]),
+  "C06": (["order3", "cond4o"], ["order3e", "pool3", "x3res", "x4res"]),
+  "C07": (["pool2", "pool3p"], ["pool3", "x3pool", "x4pool"]),
+  "C08": (["lost2", "lost3x"], ["lost3", "pool2", "mutex2p", "x3pool", "x3buf", "x3oq", "x3pq", "x3res", "x4res", "x4pool"]),
   "C09": (["end2", "x3res"], ["end3", "restart2", "wait2r", "x3pool"]),
 }
 
@@ -331,7 +331,7 @@ def model_check(pid, v, tier, out):
     for name in names:
         r, cfg, progs = run_config(pid, name, v, simulate=SIMULATE.get(name))
         total = len(progs)
-        cap = cfg.get("replay_quick", 12000) if tier == "quick" else 100000
+        cap = cfg.get("replay_quick", 12000) if tier == "quick" else 30000
         if total > cap:
             step = total // cap + 1
             progs = progs[vlib.seed() % step::step]
